@@ -254,4 +254,196 @@ theorem szx_load_is_describe (inflate : Bytes → Option Bytes) (f : Bytes) (r :
                 · exact (refresh_scr128 m hkk).2
       · cases hd
 
+/-! ### AY: audible state -/
+
+/-- the machine after the enable/disable step of the AY chunk -/
+def ayStep1 (mid : Nat) (d : Bytes) (m : Machine) : Machine :=
+  if mid < 2 then { m with ayEnabled := d.getD 0 0 &&& 2 != 0 } else m
+
+theorem ayStep1_chip (mid : Nat) (d : Bytes) (m : Machine) : (ayStep1 mid d m).ayChip = m.ayChip := by
+  unfold ayStep1; split <;> rfl
+
+/-- `szxAY` on a full-length chunk, spelled out -/
+theorem szxAY_eq (fx : Fixes) (mid : Nat) (d : Bytes) (m : Machine) (hl : d.length = 18) :
+    szxAY fx mid d m = some (if (ayStep1 mid d m).ayEnabled
+      then ((ayStep1 mid d m).aySelect (d.getD 1 0)).aySetRegs fx (d.drop 2) else ayStep1 mid d m) := by
+  unfold szxAY ayStep1
+  have h1 : ¬ d.length < 1 := by omega
+  have h2 : ¬ d.length < 18 := by omega
+  rw [if_neg h1]
+  simp only [h2, if_false]
+  generalize (if mid < 2 then ({ m with ayEnabled := d.getD 0 0 &&& 2 != 0 } : Machine) else m) = m1
+  cases h : m1.ayEnabled <;> simp
+
+theorem aySetRegs_all (m : Machine) (v : Byte) (regs : Bytes) :
+    ((m.aySelect v).aySetRegs Fixes.all regs).ayChip = chipProgram m.ayChip regs ∧
+    ((m.aySelect v).aySetRegs Fixes.all regs).ayRegs = regs.take 16 ∧
+    ((m.aySelect v).aySetRegs Fixes.all regs).aySel = (v &&& 0x0F).toNat := by
+  simp [Machine.aySetRegs, Machine.aySelect, Fixes.all]
+
+theorem aySetRegs_none (m : Machine) (v : Byte) (regs : Bytes) :
+    ((m.aySelect v).aySetRegs Fixes.none regs).ayChip = m.ayChip ∧
+    ((m.aySelect v).aySetRegs Fixes.none regs).ayRegs = regs.take 16 := by
+  simp [Machine.aySetRegs, Machine.aySelect, Fixes.none]
+
+/-- **C14, AY (repaired code).** After an AY chunk is applied to a machine with the AY present, the
+sound generator is in the state a program reaches by writing registers 0..13 through the ports —
+whatever the chip held before — and the register file and the selected register are the file's. -/
+theorem ay_audible_state (mid : Nat) (d : Bytes) (m : Machine) (hc : m.ayChip.length = 14)
+    (hl : d.length = 18) (hen : (ayStep1 mid d m).ayEnabled = true) :
+    ∃ m', szxAY Fixes.all mid d m = some m' ∧
+      m'.ayChip = (m.ayViaPorts (d.drop 2)).ayChip ∧ m'.ayChip = (d.drop 2).take 14 ∧
+      m'.ayRegs = (d.drop 2).take 16 ∧ m'.aySel = (d.getD 1 0 &&& 0x0F).toNat := by
+  have hregs : 14 ≤ (d.drop 2).length := by simp [hl]
+  have hvia := ayViaPorts_chip m (d.drop 2) hc hregs
+  have hprog : chipProgram (ayStep1 mid d m).ayChip (d.drop 2) = (d.drop 2).take 14 :=
+    chipProgram_eq _ _ (by rw [ayStep1_chip]; exact hc) hregs
+  rw [szxAY_eq _ _ _ _ hl, if_pos hen]
+  obtain ⟨e1, e2, e3⟩ := aySetRegs_all (ayStep1 mid d m) (d.getD 1 0) (d.drop 2)
+  exact ⟨_, rfl, by rw [hvia, e1]; exact hprog, by rw [e1]; exact hprog, e2, e3⟩
+
+/-- **Defect #12 (AY) is real.** The code as it is loads the register file but leaves the sound
+generator exactly as it was: read-back is right, the audible state is the previous machine's. -/
+theorem code_ay_not_audible (mid : Nat) (d : Bytes) (m m' : Machine) (hl : d.length = 18)
+    (h : szxAY Fixes.none mid d m = some m') :
+    m'.ayChip = m.ayChip ∧
+    ((ayStep1 mid d m).ayEnabled = true → m'.ayRegs = (d.drop 2).take 16) := by
+  rw [szxAY_eq _ _ _ _ hl] at h
+  simp only [Option.some.injEq] at h
+  subst h
+  by_cases hen : (ayStep1 mid d m).ayEnabled = true
+  · rw [if_pos hen]
+    obtain ⟨e1, e2⟩ := aySetRegs_none (ayStep1 mid d m) (d.getD 1 0) (d.drop 2)
+    exact ⟨by rw [e1]; exact ayStep1_chip _ _ _, fun _ => e2⟩
+  · rw [if_neg hen]
+    exact ⟨ayStep1_chip _ _ _, fun h => absurd h hen⟩
+
+/-! ### two encodings of one state -/
+
+/-- **Compressed = stored.** Under the assumed law of the decompressor (`inflate (deflate x) = some x`
+— a hypothesis, `inflate` and `deflate` are parameters) a compressed RAM page chunk and the stored
+chunk with the same 16 KiB describe the same state; by `szx_load_is_describe` the loaded machines
+are then abstractly equal. -/
+theorem ramp_compressed_eq_stored (inflate deflate : Bytes → Bytes) (inflate' : Bytes → Option Bytes)
+    (hlaw : ∀ x, inflate' (deflate x) = some x) (n : Byte) (x : Bytes) (a : Spec.AState) :
+    Spec.applyRAMP inflate' ([1, 0, n] ++ deflate x) a = Spec.applyRAMP inflate' ([0, 0, n] ++ x) a := by
+  let _ := inflate
+  unfold Spec.applyRAMP
+  simp [hlaw]
+
+/-- **SNA and SZX agree.** Let `m1` be what loading the SNA file written for `s` gives in `r`. Any SZX
+file that describes that same abstract state loads into a machine with exactly that abstract state
+(and a display that shows its RAM): the two machines are indistinguishable through `Spec.abs`. -/
+theorem sna_szx_agree (inflate : Bytes → Option Bytes) (s r m1 : Machine) (f2 : Bytes)
+    (hchip : r.ayChip.length = 14) (h48 : r.kind = .k48 → r.pagingEnabled = false)
+    (_h1 : snaLoad Fixes.all (snaSave Fixes.all s) r = .ok m1) (hk : (Spec.abs m1).model = r.kind)
+    (hd : Spec.describeSzx .pcAtHalt inflate f2 (Spec.abs r) = some (Spec.abs m1)) :
+    ∃ m2, szxLoad Fixes.all inflate f2 r = .ok m2 ∧ Spec.abs m2 = Spec.abs m1 := by
+  obtain ⟨m2, e1, e2, _⟩ := szx_load_is_describe inflate f2 r (Spec.abs m1) hchip h48 hd hk
+  exact ⟨m2, e1, e2⟩
+
+/-! ### the defects of the code as it is, chunk by chunk -/
+
+/-- **Defect #7 is real.** With ZXSTZF_HALTED the code as it is leaves PC one *past* the file's PC —
+neither the file's PC (HALT at PC) nor PC−1 (HALT before PC) — with `halted` set. -/
+theorem code_halted_pc (d : Bytes) (m m' : Machine) (hh : d.getD 34 0 &&& 2 != 0)
+    (h : szxZ80R Fixes.none d m = some m') :
+    m'.cpu.halted = true ∧ m'.cpu.pc = word (d.getD 22 0) (d.getD 23 0) + 1 := by
+  unfold szxZ80R at h
+  split at h
+  · cases h
+  · simp only at h
+    split at h
+    · cases h
+    · simp only [Option.some.injEq] at h
+      subst h
+      refine ⟨hh, ?_⟩
+      show (if (d.getD 34 0 &&& 2 != 0) && !Fixes.none.haltedPc then
+        word (d.getD 22 0) (d.getD 23 0) + 1 else word (d.getD 22 0) (d.getD 23 0)) = _
+      rw [hh]; rfl
+
+/-- **Defect #12 (border) is real.** The code as it is hands the low bits of chFe to the border
+device and stores chBorder only in the `border_color` field. -/
+theorem code_szx_border_device (mid : Nat) (d : Bytes) (m m' : Machine)
+    (h : szxSPCR Fixes.none mid d m = some m') :
+    m'.border = d.getD 0 0 ∧ m'.borderDev = d.getD 3 0 &&& 7 := by
+  unfold szxSPCR at h
+  split at h
+  · cases h
+  · simp only at h
+    split at h
+    · cases h
+    · simp only [Option.some.injEq] at h
+      subst h
+      simp [Fixes.none, Machine.setBorder]
+
+/-- **Defect #5 in SZX.** A paging-locked receiver keeps its latch through an SPCR chunk. -/
+theorem code_szx_lock_leaks (mid : Nat) (d : Bytes) (m m' : Machine) (hl : m.pagingEnabled = false)
+    (h : szxSPCR Fixes.none mid d m = some m') : m'.latch = m.latch ∧ m'.pagingEnabled = false := by
+  unfold szxSPCR at h
+  split at h
+  · cases h
+  · simp only at h
+    split at h
+    · cases h
+    · simp only [Option.some.injEq] at h
+      subst h
+      have hb := restore7ffd_blocked m (if mid < 2 then 0 else d.getD 1 0) hl
+      have hszx : Fixes.none.szxBorderDevice = false := rfl
+      rw [hszx]
+      simp only [Bool.false_eq_true, if_false]
+      refine ⟨?_, ?_⟩
+      · show (Machine.restore7ffd Fixes.none m (if mid < 2 then 0 else d.getD 1 0)).latch = _
+        rw [hb]
+      · show (Machine.restore7ffd Fixes.none m (if mid < 2 then 0 else d.getD 1 0)).pagingEnabled = _
+        rw [hb]; exact hl
+
+/-- **Defect #11 in SZX.** The Z80R chunk leaves the pending prefix of the receiving CPU alone
+(and the code as it is never clears it before walking the chunks). -/
+theorem code_szx_prefix_survives (fx : Fixes) (d : Bytes) (m m' : Machine)
+    (h : szxZ80R fx d m = some m') : m'.cpu.pfx = m.cpu.pfx := by
+  unfold szxZ80R at h
+  split at h
+  · cases h
+  · simp only at h
+    split at h
+    · cases h
+    · simp only [Option.some.injEq] at h
+      subst h
+      rfl
+
+/-! ### non-vacuity -/
+
+/-- a small well-formed 128K zx-state file: header, Z80R (PC = 0x8000, IM 1), SPCR (border 2, latch 0x13) -/
+def tinySzx : Bytes :=
+  [0x5A, 0x58, 0x53, 0x54, 1, 4, 2, 0] ++
+  [0x5A, 0x38, 0x30, 0x52, 37, 0, 0, 0] ++
+  [0x44, 0x55, 0x01, 0x02, 0x03, 0x04, 0x05, 0x06, 0, 0, 0, 0, 0, 0, 0x11, 0x22, 0, 0, 0, 0, 0x00, 0x90, 0x00, 0x80,
+   0x3F, 0x7E, 1, 1, 1, 0, 0, 0, 0, 0, 0, 0, 0] ++
+  [0x53, 0x50, 0x43, 0x52, 8, 0, 0, 0] ++ [2, 0x13, 0, 0x1F, 0, 0, 0, 0]
+
+/-- a dirty 128K receiver -/
+def dirty : Machine :=
+  { kind := .k128, cpu := { halted := true, skipInt := true, pfx := .dd }, border := 5, borderDev := 5,
+    latch := 0x20, pagingEnabled := false, screenBank := 5, map0 := 0, map3 := 0 }
+
+/-- the spec accepts the file -/
+theorem tinySzx_described :
+    (Spec.describeSzx .pcAtHalt (fun _ => none) tinySzx (Spec.abs dirty)).isSome = true := by decide
+
+/-- ... and the repaired loader puts the dirty, locked, halted receiver into exactly that state -/
+example : ∃ m a, Spec.describeSzx .pcAtHalt (fun _ => none) tinySzx (Spec.abs dirty) = some a ∧
+    szxLoad Fixes.all (fun _ => none) tinySzx dirty = .ok m ∧ Spec.abs m = a := by
+  cases hd : Spec.describeSzx .pcAtHalt (fun _ => none) tinySzx (Spec.abs dirty) with
+  | none => have := tinySzx_described; rw [hd] at this; cases this
+  | some a =>
+    have hk : a.model = dirty.kind := by
+      obtain ⟨mid, h1, h2⟩ := describeSzx_model _ _ _ _ _ hd
+      have h3 : Spec.szxMachine tinySzx = some 2 := by decide
+      rw [h3] at h1
+      cases h1
+      rw [h2]; rfl
+    obtain ⟨m, e1, e2, _⟩ := szx_load_is_describe (fun _ => none) tinySzx dirty a rfl (by intro h; cases h) hd hk
+    exact ⟨m, a, rfl, e1, e2⟩
+
 end ZxVerif.C14
